@@ -497,6 +497,31 @@ theorem mutation_forcing_serial_request (s : Schema) (doc : Document) (opName : 
     ∃ keys : List String, keys.Nodup ∧ MSerial keys events ∧ ∀ fs, data = some fs → ∀ x ∈ fs, NoDef x.2 :=
   run_mutation_serial s doc opName inputs w fuel p hp hmut data errs events h
 
+/-- **planQuery_isMutation_is_operation_kind.** The serial regime is chosen by the KIND of the selected operation and by nothing
+else — in particular not by the identity of the root type: a schema may name one object as query root AND mutation root
+(`NewSchema` accepts that), and a mutation on it is still planned as a mutation (seed C13-11 derived the flag from
+`rootType != schema.QueryType()`). -/
+theorem planQuery_isMutation_is_operation_kind (s : Schema) (doc : Document) (opName : String) (p : Plan)
+    (hp : planQuery s doc opName = .ok p)
+    (op : OpType) (n : Option Name) (vds : List VarDef) (ds : List Directive) (sel : SelectionSet) (l : Loc)
+    (hsel : selectOperation doc opName = .ok (.operation op n vds ds sel l)) :
+    p.isMutation = (op == .mutation) := by
+  unfold planQuery at hp
+  rw [hsel] at hp
+  simp only at hp
+  cases hr : s.rootFor op.toString with
+  | none => rw [hr] at hp; cases hp
+  | some root =>
+    rw [hr] at hp
+    simp only [Except.ok.injEq] at hp
+    rw [← hp]
+
+/-- … and the per-request specialisation of a plan (documents with variable-driven `@skip` / `@include` are re-planned with
+the request's variables) keeps the regime of the plan it specialises (seed C13-14 moved the flag into the root selection
+plan and forgot it here). -/
+theorem specialise_keeps_regime (p : Plan) (vars : Vars) :
+    (p.specialise vars).isMutation = p.isMutation ∧ (p.specialise vars).rootType = p.rootType := ⟨rfl, rfl⟩
+
 /-! ## Non-vacuity -/
 
 open Ex GqlModel.Exec.Ex in
